@@ -361,4 +361,86 @@ def standin_subcircuit_operations(tier, seed):
                 bound="10 bodies (one- and two-qubit, bound parameters, global phases) x repetitions -3..3 x {repeat, inverse(), **-1, qubit map}", cases=cases, distinct=cases,
                 failures=len(fails), exhaustive=True, _fails=fails[:4])
 standin_subcircuit_operations.prop = "C04"
-STANDINS = [standin_protocols, standin_predicates_vs_values, standin_subcircuit_operations]
+def standin_control_values(tier, seed):
+    """controlled operations under EVERY assignment of control values (1-3 controls, a qutrit control, sums of products): the matrix by definition
+    (the sub-gate's matrix on the block the control values select, identity elsewhere) against cirq.unitary of gate.controlled(...) / op.controlled_by(...),
+    the decomposition, apply_unitary on a random state and the simulator; for a global phase, a rotation, a two-qubit gate"""
+    import itertools
+
+    import cirq
+
+    cases, fails = 0, []
+    rs = np.random.RandomState(seed + 5)
+    subs = [("global phase", cirq.GlobalPhaseGate(np.exp(0.7j)), 0), ("global phase -1", cirq.GlobalPhaseGate(-1), 0), ("Y**0.3", cirq.Y ** 0.3, 1), ("Z**0.4", cirq.Z ** 0.4, 1), ("ISWAP**0.5", cirq.ISWAP ** 0.5, 2)]
+    for (sname, sub, nt), k in itertools.product(subs, (1, 2, 3)):
+        dims_options = [(2,) * k] + ([(3,) + (2,) * (k - 1), (2,) * (k - 1) + (3,)] if k <= 2 else [])
+        for dims in dims_options:
+            ctrls = [cirq.LineQid(i, dimension=d) for i, d in enumerate(dims)]
+            targets = [cirq.LineQid(10 + i, dimension=2) for i in range(nt)]
+            qs = ctrls + targets
+            for cv in itertools.product(*[range(d) for d in dims]):
+                cases += 1
+                D = int(np.prod(dims))
+                T = 2 ** nt
+                want = np.eye(D * T, dtype=complex)
+                idx = 0
+                for v, d in zip(cv, dims):
+                    idx = idx * d + v
+                want[idx * T:(idx + 1) * T, idx * T:(idx + 1) * T] = cirq.unitary(sub)
+                args = dict(sub_gate=sname, control_dimensions=list(dims), control_values=list(cv))
+                try:
+                    forms = {
+                        "gate.controlled(...)": sub.controlled(num_controls=k, control_values=list(cv), control_qid_shape=dims).on(*qs),
+                        "op.controlled_by(...)": sub.on(*targets).controlled_by(*ctrls, control_values=list(cv)),
+                        "ControlledGate(...)": cirq.ControlledGate(sub, num_controls=k, control_values=list(cv), control_qid_shape=dims).on(*qs),
+                    }
+                    psi = rs.randn(D * T) + 1j * rs.randn(D * T)
+                    psi = (psi / np.linalg.norm(psi)).astype(np.complex128)
+                    for fname, op in forms.items():
+                        views = {
+                            "cirq.unitary": cirq.unitary(op),
+                            "decompose": cirq.Circuit(cirq.decompose(op)).unitary(qubit_order=qs, qubits_that_should_be_present=qs),
+                            "decompose_once": cirq.Circuit(cirq.decompose_once(op, default=[op])).unitary(qubit_order=qs, qubits_that_should_be_present=qs),
+                        }
+                        problem = next((v for v, m in views.items() if not np.allclose(m, want, atol=1e-7)), None)
+                        if problem is None:
+                            out = cirq.Simulator(dtype=np.complex128).simulate(cirq.Circuit(op), qubit_order=qs, initial_state=psi.copy()).final_state_vector
+                            if not np.allclose(out, want @ psi, atol=1e-6):
+                                problem = "the simulator"
+                        if problem:
+                            fails.append(dict(args=dict(args, form=fname, view=problem), failed="control-values", clause=f"{fname} of {sname} with control values {list(cv)} over control dimensions {list(dims)}: {problem} disagrees with the matrix the control values define"))
+                            break
+                except Exception as ex:
+                    fails.append(dict(args=args, failed="control-values-raised", clause=f"{ex!r}"))
+        # sums of products over two qubit controls
+        if k == 2:
+            ctrls = cirq.LineQubit.range(2)
+            targets = [cirq.LineQubit(10 + i) for i in range(nt)]
+            qs = list(ctrls) + targets
+            for rows in ([(0, 1)], [(0, 1), (1, 0)], [(0, 0), (1, 1)], [(1, 1), (0, 1), (1, 0)]):
+                cases += 1
+                T = 2 ** nt
+                want = np.eye(4 * T, dtype=complex)
+                for r_ in rows:
+                    idx = r_[0] * 2 + r_[1]
+                    want[idx * T:(idx + 1) * T, idx * T:(idx + 1) * T] = cirq.unitary(sub)
+                try:
+                    op = sub.on(*targets).controlled_by(*ctrls, control_values=cirq.SumOfProducts(rows))
+                    views = {"cirq.unitary": cirq.unitary(op), "decompose": cirq.Circuit(cirq.decompose(op)).unitary(qubit_order=qs, qubits_that_should_be_present=qs)}
+                    problem = next((v for v, m in views.items() if not np.allclose(m, want, atol=1e-7)), None)
+                    if problem:
+                        fails.append(dict(args=dict(sub_gate=sname, control_values=repr(rows), view=problem), failed="control-values", clause=f"{sname} controlled by the sum of products {rows}: {problem} disagrees with the matrix the control values define"))
+                except Exception as ex:
+                    fails.append(dict(args=dict(sub_gate=sname, control_values=repr(rows)), failed="control-values-raised", clause=f"{ex!r}"))
+    seen, uniq = set(), []
+    for f_ in fails:
+        key = (f_["args"]["sub_gate"], f_["failed"])
+        if key not in seen:
+            seen.add(key)
+            uniq.append(f_)
+    return dict(function="cirq-core/cirq/ops/{controlled_gate,controlled_operation,global_phase_op,raw_types}.py[controlled(...) under every control value]", case="control-values",
+                bound="5 sub-gates x 1-3 controls (qubits; a qutrit first or last for <= 2 controls) x every control-value assignment x 3 ways of building the operation x 4 views; 4 sums of products", cases=cases, distinct=cases, failures=len(uniq), exhaustive=True, _fails=uniq[:4])
+standin_control_values.prop = "C04"
+
+
+STANDINS = [standin_protocols, standin_predicates_vs_values, standin_subcircuit_operations, standin_control_values]
